@@ -58,6 +58,8 @@ type c11case struct {
 	Corr string `json:"corr,omitempty"`
 	// SnapEvery: chain cases export/import a snapshot of the real chain state every k blocks (0 = at the end only)
 	SnapEvery int `json:"snap_every,omitempty"`
+	// Cut: fsync cases, only this cut of the switch sweep (k+1: the node dies before write event k of snapshot import + switch; 0 = all)
+	Cut int `json:"cut,omitempty"`
 }
 
 /* ---------------------------------------------------------------------------------------------------------------
@@ -855,6 +857,10 @@ func c11runFsync(c *hx.Ctx, cs c11case) error {
 		return scn("fixture", err.Error())
 	}
 	addrs := unionAddrs(stateAddrs(S.App.State, 300), stateAddrs(x.n.App.State, 300), x.w.Addrs)
+	c11switchSweep(x, S, copyMemDB(x.n.DB), snap.Bytes(), addrs, top)
+	if x.failed {
+		return nil
+	}
 	_ = accessorDump(x.n.App.State, addrs) // D reads its own (pre-switch) state, incl. accounts that exist only there
 	if err := fs.Finish(snap.Bytes()); err != nil {
 		x.fail("C11:fast-sync-refused-honest-blocks", "snapshot import / switch at the end of the fast sync: "+err.Error())
@@ -888,6 +894,123 @@ func c11runFsync(c *hx.Ctx, cs c11case) error {
 		}
 	}
 	return nil
+}
+
+// c11switchSweep: crash sweep over the end of the fast sync: snapshot import (RecoverSnapshot2 + SaveForcedVersion) and the
+// real AtomicSwitchToPreliminary.  `mid` = D's database after the applier reached the canonical head.  D restarts over a
+// copy, resumes (preConsuming), and dies before write event k of import + switch, for every k; it then restarts the way
+// node.Start does (chainfx.Start: Initialize, EnsureIntegrity).  It must come up entirely before the switch (own head,
+// preliminary head kept; finishing the sync then succeeds) or entirely after it, and in both cases end with the canonical
+// head, roots, contents (accessors), identity state and served diffs.  Fact for the model: the switch is ONE write group.
+func c11switchSweep(x *c11chain, S *chainfx.Node, mid dbm.DB, snap []byte, addrs []common.Address, top uint64) {
+	c := x.c
+	ownHead := x.n.Chain.Head.Height()
+	type att struct {
+		importEv, total int
+		inner           dbm.DB
+		ok              bool
+	}
+	attempt := func(budget int) (a att) {
+		a.inner = copyMemDB(mid)
+		cdb := newCrashDB(a.inner)
+		n1, err := chainfx.Start(cdb, x.w.Keys[0], x.w.Cfg(), false)
+		if err != nil {
+			return
+		}
+		fs1 := protocol.VerifC11NewFastSync(n1.Chain, n1.App, n1.Cfg)
+		if lo, err := fs1.PreConsuming(n1.Chain.Head); err != nil || lo != top+1 {
+			return
+		}
+		cdb.events, cdb.budget, cdb.owner = 0, budget, curGID()
+		err1 := fs1.FinishImport(snap)
+		a.importEv = cdb.events
+		if err1 == nil {
+			fs1.FinishSwitch()
+		}
+		a.total = cdb.events
+		cdb.budget, cdb.events = 0, 0 // the process is dead: nothing reaches the database any more
+		a.ok = true
+		return
+	}
+	dry := attempt(-1)
+	if !dry.ok || dry.total == 0 {
+		c.Hit("switch-sweep:skipped")
+		return
+	}
+	c.Line("switchwrites", strconv.Itoa(dry.total-dry.importEv))
+	c.Hit(fmt.Sprintf("switch-sweep:write-events import=%d switch=%d", dry.importEv, dry.total-dry.importEv))
+	saveN := x.n
+	defer func() { x.n = saveN }()
+	for k := 0; k <= dry.total; k++ {
+		if x.cs.Cut != 0 && x.cs.Cut != k+1 {
+			continue
+		}
+		a := attempt(k)
+		if !a.ok {
+			continue
+		}
+		c.Rep.Evaluations++
+		phase := "snapshot import"
+		sig := "C11:fast-sync-resume-fails"
+		if k >= dry.importEv && k < dry.total {
+			phase, sig = fmt.Sprintf("switch (its write event %d of %d)", k-dry.importEv, dry.total-dry.importEv), "C11:fast-sync-switch-not-atomic"
+		}
+		fail := func(detail string) {
+			rp := x.cs
+			rp.Cut = k + 1
+			x.failed = true
+			c.Fail(sig, fmt.Sprintf("node dies before write event %d of %d of the end of the fast sync to height %d (%s), then restarts: %s", k, dry.total, top, phase, detail), rp)
+		}
+		n2, err := chainfx.Start(a.inner, x.w.Keys[0], x.w.Cfg(), false)
+		if err != nil {
+			fail("the node does not start again: " + err.Error())
+			return
+		}
+		switch h := n2.Chain.Head.Height(); {
+		case h == ownHead && n2.Chain.PreliminaryHead != nil && n2.Chain.PreliminaryHead.Height() == top:
+			// entirely before the switch: the sync goes on and finishes
+			fs2 := protocol.VerifC11NewFastSync(n2.Chain, n2.App, n2.Cfg)
+			if lo, err := fs2.PreConsuming(n2.Chain.Head); err != nil || lo != top+1 {
+				fail(fmt.Sprintf("preConsuming on restart: from=%d err=%v", lo, err))
+				return
+			}
+			_ = accessorDump(n2.App.State, addrs)
+			if err := fs2.Finish(snap); err != nil {
+				fail("finishing the sync after the restart: " + err.Error())
+				return
+			}
+			c.Hit("switch-sweep:came-up-before")
+		case h == top && n2.Chain.PreliminaryHead == nil:
+			c.Hit("switch-sweep:came-up-after")
+		default:
+			ph := "nil"
+			if n2.Chain.PreliminaryHead != nil {
+				ph = fmt.Sprint(n2.Chain.PreliminaryHead.Height())
+			}
+			fail(fmt.Sprintf("the node comes up half-switched: head %d (own head before the sync %d, snapshot height %d), preliminary head %s", h, ownHead, top, ph))
+			return
+		}
+		if n2.Chain.Head.Hash() != S.Chain.Head.Hash() || n2.App.State.Root() != S.App.State.Root() || n2.App.IdentityState.Root() != S.App.IdentityState.Root() {
+			fail("head / state root / identity root differ from the serving node's")
+			return
+		}
+		if d := firstDiff(accessorDump(S.App.State, addrs), accessorDump(n2.App.State, addrs)); d != "" {
+			fail("contents differ from the serving node's: " + d)
+			return
+		}
+		if identityContents(n2.App.IdentityState) != identityContents(S.App.IdentityState) {
+			fail("identity state differs from the serving node's")
+			return
+		}
+		x.n = n2
+		x.sigOverride, x.sigNote = sig, fmt.Sprintf("node dies before write event %d of %d of the end of the fast sync, restarts, sync finished; then: ", k, dry.total)
+		ans := x.replayAll(false)
+		x.sigOverride, x.sigNote = "", ""
+		x.n = saveN
+		if !strings.HasPrefix(ans, "ok") {
+			return
+		}
+	}
 }
 
 // c11crashSweep: D dies after the k-th write event of the fast sync (preConsuming + applyDeferredBlocks), for every k
